@@ -94,10 +94,10 @@ def run_session(toks):
     return ';'.join(out)
 
 
-def in_child(fn):
+def start_child(fn):
     """one session = one forked child of the still untouched adapter process (sessions are served before any other
     request): it starts from the state of the freshly imported library and leaves nothing behind, so the replay of a
-    single session request sees exactly the same process state"""
+    single session request sees exactly the same process state.  Answers are short (well below a pipe buffer)."""
     rd, wr = os.pipe()
     pid = os.fork()
     if pid == 0:
@@ -114,10 +114,18 @@ def in_child(fn):
         finally:
             os._exit(0)
     os.close(wr)
+    return pid, rd
+
+
+def join_child(pid, rd):
     with os.fdopen(rd) as f:
         data = f.read()
     os.waitpid(pid, 0)
     return data if data else 'CRASH session process died'
+
+
+def in_child(fn):
+    return join_child(*start_child(fn))
 
 
 def dispatch(t):
@@ -142,9 +150,20 @@ def main():
         lines.pop()
     answers = [None] * len(lines)
     # sessions first: every one forks from the process as it is right after the import
+    window = []
+    width = max(1, min(8, (os.cpu_count() or 2) // 2))
     for i, l in enumerate(lines):
         if l.startswith('ses '):
-            answers[i] = dispatch(l.split(' '))
+            t = l.split(' ')
+            if len(t) < 4:
+                answers[i] = 'BADREQ'
+                continue
+            window.append((i,) + start_child(lambda t=t: run_session(t[3:])))
+            if len(window) >= width:
+                j, pid, rd = window.pop(0)
+                answers[j] = join_child(pid, rd)
+    for j, pid, rd in window:
+        answers[j] = join_child(pid, rd)
     out = sys.stdout
     for i, l in enumerate(lines):
         if answers[i] is None:
